@@ -309,7 +309,7 @@ def tidal_potential(
         # 2o - 3n
         ((7. / 12.) * e) * cos_o_4,
         # o
-        (-2. / 3.) * sin3_cos,
+        (2. / 3.) * cos3_sin + (-2. / 3.) * sin3_cos,
         # 2o
         (1. / 3.) * cos2_sin2,
         # o + n
